@@ -656,8 +656,36 @@ BUILDERS = {"add_node_to_edge", "add_edge", "add_edges_from", "add_nodes_from", 
 def np_taint(fn_node):
     """Names whose value derives from np.array/np.asarray/np.fromiter applied to non-numeric data of the function
     (flow-insensitive closure; an index position inside a subscript does not propagate)."""
+    params = {a.arg for a in fn_node.args.posonlyargs + fn_node.args.args + fn_node.args.kwonlyargs}
+    local = {}
+    for st in ast.walk(fn_node):
+        if isinstance(st, ast.Assign) and len(st.targets) == 1 and isinstance(st.targets[0], ast.Name):
+            local.setdefault(st.targets[0].id, []).append(st.value)
+
+    def labelish(e, depth=0):
+        """The expression carries node / edge labels: a table or view of a network, a `*label*` parameter, or a local
+        bound to one (len(...) and the like do not carry labels)."""
+        if depth > 3:
+            return False
+        if isinstance(e, ast.Call) and isinstance(e.func, ast.Name) and e.func.id in ("len", "range", "int", "float", "sum", "max", "min"):
+            return False
+        for n in ast.walk(e):
+            if isinstance(n, ast.Attribute) and n.attr in ("nodes", "edges", "_node", "_edge"):
+                return True
+            if isinstance(n, ast.Name) and n.id in params and "label" in n.id:
+                return True
+            if isinstance(n, ast.Name) and n.id in local and any(labelish(v, depth + 1) for v in local[n.id]):
+                return True
+        return False
+
     def is_source(c):
-        return isinstance(c, ast.Call) and isinstance(c.func, ast.Attribute) and c.func.attr in ("array", "asarray", "fromiter", "asanyarray") and isinstance(c.func.value, ast.Name) and c.func.value.id in ("np", "numpy") and c.args and not _numeric_literal(c.args[0])
+        if not (isinstance(c, ast.Call) and isinstance(c.func, ast.Attribute) and isinstance(c.func.value, ast.Name) and c.func.value.id in ("np", "numpy") and c.args):
+            return False
+        if c.func.attr in ("array", "asarray", "fromiter", "asanyarray"):
+            return not _numeric_literal(c.args[0])
+        if c.func.attr in ("repeat", "tile", "concatenate", "hstack", "vstack", "unique", "sort", "take", "stack", "append"):
+            return labelish(c.args[0])
+        return False
 
     def carries(e, tainted):
         """Does the value of e derive from a tainted name / a source (ignoring subscript index positions and dict keys)?"""
@@ -720,13 +748,15 @@ def check_npid(repo, res):
         if not mn.startswith("xgi.convert."):
             continue
         for fn in mi.functions.values():
-            sinks = [c for c in ast.walk(fn.node) if isinstance(c, ast.Call) and isinstance(c.func, ast.Attribute) and c.func.attr in BUILDERS]
+            sinks = [c for c in ast.walk(fn.node) if isinstance(c, ast.Call) and isinstance(c.func, ast.Attribute) and (c.func.attr in BUILDERS or (c.func.attr in ("DataFrame", "Series") and isinstance(c.func.value, ast.Name) and c.func.value.id in ("pd", "pandas")))]
             if not sinks:
                 continue
             tainted, carries = np_taint(fn.node)
             for c in sinks:
                 n += 1
-                bad = [a for a in list(c.args) + [k.value for k in c.keywords] if carries(a, tainted)]
+                vals = list(c.args) + [k.value for k in c.keywords]
+                vals += [v for a in list(vals) if isinstance(a, ast.Dict) for v in a.values]
+                bad = [a for a in vals if carries(a, tainted)]
                 res.inst("T-NPID", f"{fn.qualname}:{c.lineno} {c.func.attr}(...) receives labels that never passed through a NumPy array", not bad)
                 if bad:
                     res.add(mk_finding(PROP, "T-NPID", fn, c, f"{fn.qualname}: `{unparse(bad[0], 40)}` handed to {c.func.attr}() was taken out of a NumPy array built from the labels; NumPy stores one element type, so a label list that mixes integers and strings comes back as strings (and Python ints as NumPy scalars) - the IDs of the converted network differ from the labels given", role=c.func.attr))
